@@ -162,6 +162,16 @@ def prepare(prop, tier="quick"):
         from core import Model
         model = Model()
         model.run([])  # wait until the driver has loaded
+        # from here on this process only interprets op programs against the code under test: a change to that code must not be
+        # able to exhaust the machine (arrays of 10^9 samples from a wrong delay, say) -- it gets a MemoryError instead,
+        # which is a result like any other exception
+        try:
+            import resource
+            lim = 16 * 2 ** 30
+            soft, hard = resource.getrlimit(resource.RLIMIT_AS)
+            resource.setrlimit(resource.RLIMIT_AS, (lim if hard == resource.RLIM_INFINITY else min(lim, hard), hard))
+        except Exception:  # noqa: BLE001
+            pass
     return info, model
 
 
@@ -185,6 +195,43 @@ def first_diff(prop, ops, model, errclass):
         if d:
             return {"index": len(ops) - 1, "op": None, "diff": d}, ri, rm
     return None, ri, rm
+
+
+REF_FIELDS = ("id", "to", "bp", "el", "sub", "a", "b", "base", "seq")
+
+
+def merged_program(r, other_ops, ops):
+    """two unrelated programs in ONE process and ONE model run, interleaved in chunks: the objects of `other_ops` (renamed y_*)
+    are never derived from those of `ops`, so nothing one program does may show in the other's results (no class attribute,
+    mutable default, module-level table or cache shared between unrelated objects).  Only the model comparison judges it."""
+    def clean(prog, prefix):
+        out = []
+        for o in prog:
+            if o.get("op") == "heap.summary":
+                continue
+            n = dict(o)
+            n.pop("_universal", None)
+            for f in REF_FIELDS:
+                if prefix and isinstance(n.get(f), str):
+                    n[f] = prefix + n[f]
+            out.append(n)
+        return out
+    A, B = clean(other_ops, "y_"), clean(ops, "")
+    out = []
+    i = j = 0
+    while i < len(A) or j < len(B):
+        k = r.randint(1, 6)
+        out += A[i:i + k]
+        i += k
+        k = r.randint(1, 6)
+        out += B[j:j + k]
+        j += k
+    if not out:
+        return ops
+    names = sorted({o[k] for o in out for k in ("id", "to") if isinstance(o.get(k), str)})
+    out.append({"op": "heap.summary", "vars": names})
+    out[0] = {**out[0], "_universal": True, "_merged": True}
+    return out
 
 
 def jsonable_short(x):
@@ -313,6 +360,7 @@ def run_check(pid, tier, seed):
         handle(c["ops"], "corpus/" + os.path.basename(path))
     n = prop.QUICK_N if tier == "quick" else prop.THOROUGH_N
     direct_fail = []
+    prev_case = None
     try:
         for ci in range(n):
             g = G(seed * 1000003 + ci)
@@ -343,6 +391,14 @@ def run_check(pid, tier, seed):
             handle(ops, f"gen seed={seed} case={ci}")
             if len(violations) >= 3:
                 break
+            every_m = getattr(prop, "MERGE_EVERY", 6)
+            if every_m and prev_case is not None and ci % every_m == 3 and len(ops) + len(prev_case) <= 400:
+                # this case once more, interleaved with the previous (unrelated) one
+                stats["merged"] = stats.get("merged", 0) + 1
+                handle(merged_program(g.r, prev_case, ops), f"gen seed={seed} case={ci} interleaved with case={ci - 1}")
+                if len(violations) >= 3:
+                    break
+            prev_case = ops
         if hasattr(prop, "direct"):
             direct_fail = prop.direct(seed, tier, model, stats) or []
     finally:
